@@ -73,7 +73,7 @@ static void judge_path(Ctx& ctx, const Case& c, bool from_replay) {
   int prec = (int)c.geti("prec", 2), sh = (int)c.geti("sh", 2);
   ctx.begin(c);
   J j{ ctx, c, {} };
-  for (int closed = 1; closed >= 0; --closed) {
+  for (int closed = 0; closed <= 1; ++closed) {
     run_trim(j, p, closed != 0, prec);
     for (double e : eps4) run_simplify(j, p, closed != 0, (int64_t)e, sh);
     run_strip_duplicates(j, p, closed != 0, sh);
@@ -107,7 +107,9 @@ static bool exh_path(uint64_t idx, Path64& p, int& k) {
 struct IJ { int64_t i, j; };
 
 // abstract walk on a G x G lattice with collinear runs, repeats, spikes and revisits
-static std::vector<IJ> lattice_walk(Rng& rng, int G, int n) {
+// clean: only jumps to a different point and collinear continuations (no repeats, spikes, revisits, forced rings),
+// so that the premise of the TrimCollinear corner claim holds often
+static std::vector<IJ> lattice_walk(Rng& rng, int G, int n, bool clean) {
   std::vector<IJ> w;
   auto rnd = [&]() { return IJ{ rng.range(0, G - 1), rng.range(0, G - 1) }; };
   auto inside = [&](IJ q) { return q.i >= 0 && q.i < G && q.j >= 0 && q.j < G; };
@@ -116,19 +118,25 @@ static std::vector<IJ> lattice_walk(Rng& rng, int G, int n) {
     if (w.empty()) { w.push_back(rnd()); continue; }
     IJ cur = w.back();
     double u = rng.unit();
+    if (clean) {
+      if (u >= 0.5) u = 0.4;                    // collinear continuation
+      else { IJ q = rnd(); if (q.i == cur.i && q.j == cur.j) continue; dir = IJ{ q.i - cur.i, q.j - cur.j }; w.push_back(q); continue; }
+    }
     if (u < 0.30) { IJ q = rnd(); dir = IJ{ q.i - cur.i, q.j - cur.j }; w.push_back(q); }
     else if (u < 0.58) {                       // continue collinearly (same direction, primitive step)
       int64_t a = dir.i, b = dir.j, g = std::__gcd(a < 0 ? -a : a, b < 0 ? -b : b);
       if (g == 0) { dir = IJ{ rng.range(-1, 1), rng.range(-1, 1) }; continue; }
       IJ q{ cur.i + a / g, cur.j + b / g };
-      if (inside(q)) w.push_back(q); else { dir = IJ{ -dir.i, -dir.j }; if (rng.chance(0.5)) w.push_back(IJ{ cur.i + dir.i / g, cur.j + dir.j / g }); }
+      if (inside(q)) w.push_back(q);
+      else if (clean) { IJ t = rnd(); if (t.i == cur.i && t.j == cur.j) continue; dir = IJ{ t.i - cur.i, t.j - cur.j }; w.push_back(t); }
+      else { dir = IJ{ -dir.i, -dir.j }; if (rng.chance(0.5)) w.push_back(IJ{ cur.i + dir.i / g, cur.j + dir.j / g }); }
     }
     else if (u < 0.70) w.push_back(cur);        // repeated point
     else if (u < 0.82) { IJ q = rnd(); w.push_back(q); if ((int)w.size() < n) w.push_back(cur); }   // spike
-    else if (u < 0.92) w.push_back(w[(size_t)rng.range(0, (int64_t)w.size() - 1)]);                 // revisit
+    else if (u < 0.95) w.push_back(w[(size_t)rng.range(0, (int64_t)w.size() - 1)]);                 // revisit
     else w.push_back(w[0]);                      // back to the start
   }
-  if (n >= 2 && rng.chance(0.12)) w[n - 1] = w[0];   // ring handed over with its closing point
+  if (!clean && n >= 2 && rng.chance(0.06)) w[n - 1] = w[0];   // ring handed over with its closing point
   for (auto& q : w) { if (q.i < 0) q.i = 0; if (q.i >= G) q.i = G - 1; if (q.j < 0) q.j = 0; if (q.j >= G) q.j = G - 1; }
   return w;
 }
@@ -151,12 +159,14 @@ static void gen_path_case(Ctx& ctx, Case& c, uint64_t i) {
       xs.push_back(x);
       if (orient == 0) p.emplace_back(x, y); else if (orient == 1) p.emplace_back(y, x); else p.emplace_back(x + y, x - y);
     }
-    if (n >= 2 && rng.chance(0.1)) p[n - 1] = p[0];
+    if (n >= 2 && rng.chance(0.05)) p[n - 1] = p[0];
     thr.push_back((double)span / 4);
     magname = "strip_2^40";
   } else {
-    static const int Gs[] = { 2, 3, 4, 5, 8, 16 };
-    int G = Gs[rng.irange(0, 5)];
+    static const int Gs[] = { 2, 3, 4, 5, 8, 16, 30, 100 };
+    int G = Gs[rng.irange(0, 7)];
+    bool clean = rng.chance(0.3);
+    if (clean) G = std::max(G, 3);
     int64_t ox = 0, oy = 0, ux = 1, uy = 0, vx = 0, vy = 1;
     magname = "tiny_lattice";
     if (cls == 2) { ox = rng.range(-((int64_t)1 << 40), (int64_t)1 << 40); oy = rng.range(-((int64_t)1 << 40), (int64_t)1 << 40); magname = "tiny_lattice_translated_2^40"; }
@@ -174,7 +184,7 @@ static void gen_path_case(Ctx& ctx, Case& c, uint64_t i) {
       thr.push_back(std::ldexp(1.0, 37));
       magname = "affine_lattice_2^40";
     }
-    for (const IJ& q : lattice_walk(rng, G, n)) p.emplace_back(ox + q.i * ux + q.j * vx, oy + q.i * uy + q.j * vy);
+    for (const IJ& q : lattice_walk(rng, G, n, clean)) p.emplace_back(ox + q.i * ux + q.j * vx, oy + q.i * uy + q.j * vy);
   }
   c.set("kind", "path");
   c.p64["P"] = Paths64{ p };
@@ -196,7 +206,10 @@ static void gen_ellipse_case(Ctx& ctx, Case& c) {
   int64_t rx2 = radius2(), ry2 = rng.chance(0.15) ? 0 : (rng.chance(0.3) ? rx2 : radius2());
   long long steps;
   double u = rng.unit();
-  if (u < 0.25) steps = rng.irange(0, 2); else if (u < 0.7) steps = rng.irange(3, 40); else steps = rng.irange(41, 2000);
+  if (u < 0.25) steps = rng.irange(0, 2); else if (u < 0.85) steps = rng.irange(3, 40); else steps = rng.irange(41, 1000);
+  if (steps <= 2) {   // automatic step count is pi*sqrt(mean radius): keep it near a thousand points at most
+    rx2 = std::min<int64_t>(rx2, ((int64_t)1 << 18) - 1 - rx2 % 7); ry2 = std::min<int64_t>(ry2, ((int64_t)1 << 18) - 1 - ry2 % 5);
+  }
   bool far = rng.chance(0.3);
   c.set("kind", "ellipse");
   c.seti("cx", far ? rng.range(-((int64_t)1 << 40), (int64_t)1 << 40) : rng.range(-1000, 1000));
